@@ -13,6 +13,7 @@ mod corpus;
 mod driver;
 mod exec;
 mod gen;
+mod include_rule;
 mod l2;
 mod model;
 mod rng;
